@@ -11,8 +11,8 @@ LEVEL = "model_checking"
 
 
 def describe(e):
-    return "%s then %s%s: scenario %s; spawned %s in group %s -> returned=%s after %d ms (bound %d), survivors %s (in group %s), IsOn=%s, result %s %s" % (
-        e.get("startMode"), e.get("stopMode"), " (direct child exits first)" if e.get("rootExits") else "", e.get("scenario"), e.get("spawned"), e.get("inGroup"),
+    return "%s (%s) then %s%s: scenario %s; spawned %s in group %s -> returned=%s after %d ms (bound %d), survivors %s (in group %s), IsOn=%s, result %s %s" % (
+        e.get("startMode"), e.get("launcher"), e.get("stopMode"), " (direct child exits first)" if e.get("rootExits") else "", e.get("scenario"), e.get("spawned"), e.get("inGroup"),
         e.get("returned"), e.get("latencyMs"), e.get("boundMs"), e.get("survivors"), e.get("survivorsIn"), e.get("isOn"), e.get("result"), e.get("note", ""))
 
 
@@ -25,6 +25,7 @@ def run(chk, scratch):
     for cfg, want, what in (("ProcTree_killchild.cfg", "AfterReturnNoSurvivor", "kill-child (must violate AfterReturnNoSurvivor)"),
                             ("ProcTree_killchild_live.cfg", "StopReturns", "kill-child (must violate StopReturns)"),
                             ("ProcTree_nodelay_live.cfg", "StopReturns", "kill-tree without bounded wait (must violate StopReturns)"),
+                            ("ProcTree_nogroup.cfg", "AfterReturnNoSurvivor", "no process group for a command run through a translator (must violate AfterReturnNoSurvivor)"),
                             ("ProcTree_ascoded.cfg", "AfterReturnNoSurvivor", "as coded: nobody to signal once Execute has reaped a child that exited by itself (must violate AfterReturnNoSurvivor)")):
         r = vlib.run_tlc(scratch, [SPEC], "ProcTree", cfg, workers=4, timeout=600, fast=True)
         vlib.tlc_must_pass(r, cfg)
@@ -43,6 +44,7 @@ def run(chk, scratch):
     hard = [s for s in scen if any(s["holds"]) or s["rootExits"] or not all(s["inGroup"])]
     n_hard, n_any = (900, 300) if thorough else (110, 20)
     pick = rnd.sample(hard, n_hard) + rnd.sample(scen, n_any)
+    chk.cov["trees_run_through_a_command_translator"] = sum(1 for s in pick if s["launcher"] == "translated")
     chk.sample({"scenario": pick[0]})
     inp = os.path.join(scratch, "c05-scen.ndjson")
     vlib.write_ndjson(inp, pick)
